@@ -227,49 +227,77 @@ def pRun : Nat → PState → List Bool → PState × List Bool × List (Nat × 
 
 /-! ## fixed-width arithmetic of the launch path
 
-The dispatch packet holds `GridSize*` as `uint32` and `WorkgroupSize*` as `uint16`; the driver
-(`distributeWGToGPUs`, the `WGFilter` closure) computes `(g-1)/uint32(w)+1` and the product of
-the three counts IN `uint32` and converts to `int` afterwards; `countWG` converts `GridSize-1`
-(uint32) to `int` first. `int` is 64 bits. The definitions below follow those widths; inputs are
-`g < 2^32`, `w < 2^16` by type. (Wrap-around subtraction is written with `if`, never as
-`+ 2^32`.) -/
+The dispatch packet holds `GridSize*` as `uint32` and `WorkgroupSize*` as `uint16` (inputs are
+`g < 2^32`, `w < 2^16` by type). REPAIRED code (`numWGInDim` in `kernels/gridbuilder.go` and
+`driver/driver.go`): the per-axis count is `(int(g)+int(w)-1)/int(w)` and the product of the three
+counts is an `int` product (64 bits; modelled as the low 64 bits of the `Nat` product);
+`wgPerCU = (total+CUs-1)/CUs`. The code as pinned before the repair (`(g-1)/uint32(w)+1` and the
+product IN `uint32`, `countWG` converting a `uint32` difference) is kept with the suffix `Old`.
+(Wrap-around subtraction is written with `if`, never as `+ 2^32`.) -/
 
-/-- `(g-1)/uint32(w) + 1` in `uint32`: `g-1` wraps to `2^32-1` for `g = 0` -/
-def nwg32 (g w : Nat) : Nat := ((if g = 0 then 4294967295 else g - 1) / w + 1) % 4294967296
+/-- `numWGInDim`: `(int(g) + int(w) - 1) / int(w)`; 0 for an empty axis -/
+def nwgI (g w : Nat) : Nat := (g + w - 1) / w
 
-/-- `int(GridSize-1)/int(w) + 1` of `countWG`: the subtraction is `uint32`, the rest 64-bit -/
-def nwg64 (g w : Nat) : Nat := (if g = 0 then 4294967295 else g - 1) / w + 1
+/-- `numWGX * numWGY * numWGZ` in `int`: the low 64 bits of the product -/
+def Geo.totalI (g : Geo) : Nat :=
+  (nwgI g.gx g.wx * nwgI g.gy g.wy % 18446744073709551616) * nwgI g.gz g.wz % 18446744073709551616
 
-/-- `int(numWGX * numWGY * numWGZ)` of `distributeWGToGPUs`: the product wraps in `uint32` -/
-def Geo.total32 (g : Geo) : Nat :=
-  (nwg32 g.gx g.wx * nwg32 g.gy g.wy % 4294967296) * nwg32 g.gz g.wz % 4294967296
+/-- `(totalWGCount + totalCUCount - 1) / totalCUCount` -/
+def wgPerCUI (total sumCU : Nat) : Nat := (total + sumCU - 1) / sumCU
 
-/-- `(totalWGCount-1)/totalCUCount + 1` with Go's `int` division (toward zero): for a total that
-    wrapped to 0 this is `(-1)/n + 1` = 1 (0 when `n = 1`) -/
-def wgPerCU64 (total sumCU : Nat) : Nat :=
-  if total = 0 then (if sumCU = 1 then 0 else 1) else (total - 1) / sumCU + 1
-
-/-- the `WGFilter` closure with the counts as it computes them (`uint32`, then `int`) -/
-def gpuFilter32 (g : Geo) (dist : List Nat) (i : Nat) (c : Coord) : Bool :=
-  let nx := nwg32 g.gx g.wx
-  let ny := nwg32 g.gy g.wy
+/-- the `WGFilter` closure of the repaired driver -/
+def gpuFilterI (g : Geo) (dist : List Nat) (i : Nat) (c : Coord) : Bool :=
+  let nx := nwgI g.gx g.wx
+  let ny := nwgI g.gy g.wy
   let f := c.2.2 * nx * ny + c.2.1 * nx + c.1
   decide (dist.getD i 0 ≤ f) && decide (f < dist.getD (i + 1) 0)
 
-/-- `distributeWGToGPUs` with the real widths: fault or the cumulative ranges -/
-def dist32 (g : Geo) (cus : List Nat) : Except String (List Nat) :=
+/-- `distributeWGToGPUs` of the repaired driver: fault or the cumulative ranges -/
+def distI (g : Geo) (cus : List Nat) : Except String (List Nat) :=
   if g.wx = 0 ∨ g.wy = 0 ∨ g.wz = 0 ∨ cus.sum = 0 then .error "div0" else
-  let dist := wgDist (wgPerCU64 g.total32 cus.sum) cus 0
-  if dist.getLast! < g.total32 then .error "not_all_allocated" else .ok dist
+  let dist := wgDist (wgPerCUI g.totalI cus.sum) cus 0
+  if dist.getLast! < g.totalI then .error "not_all_allocated" else .ok dist
 
-/-- the typed range of a dispatch packet plus the one bound nothing in the launch path checks:
-    fewer than 2^32 work-groups, and no empty axis -/
+/-- the GPUs that receive a launch request (non-empty range) -/
+def launched (d : List Nat) (n : Nat) : List Nat :=
+  (List.range n).filter fun i => decide (d.getD (i + 1) 0 - d.getD i 0 ≠ 0)
+
+/-- what the launch path does not check and the model assumes: no empty axis, typed ranges, and
+    fewer than 2^63 work-groups (the `int` product does not overflow) -/
 def Geo.NoWrap (g : Geo) : Prop :=
   (1 ≤ g.gx ∧ g.gx < 4294967296) ∧ (1 ≤ g.gy ∧ g.gy < 4294967296) ∧ (1 ≤ g.gz ∧ g.gz < 4294967296) ∧
   (1 ≤ g.wx ∧ g.wx < 65536) ∧ (1 ≤ g.wy ∧ g.wy < 65536) ∧ (1 ≤ g.wz ∧ g.wz < 65536) ∧
-  g.nx * g.ny * g.nz < 4294967296
+  g.nx * g.ny * g.nz < 9223372036854775808
 
 instance (g : Geo) : Decidable g.NoWrap := by unfold Geo.NoWrap; exact inferInstance
+
+/-! ### the pinned code before the repair -/
+
+/-- `(g-1)/uint32(w) + 1` in `uint32`: `g-1` wraps to `2^32-1` for `g = 0` -/
+def nwg32Old (g w : Nat) : Nat := ((if g = 0 then 4294967295 else g - 1) / w + 1) % 4294967296
+
+/-- `int(GridSize-1)/int(w) + 1` of the old `countWG`: the subtraction is `uint32`, the rest 64-bit -/
+def nwg64Old (g w : Nat) : Nat := (if g = 0 then 4294967295 else g - 1) / w + 1
+
+/-- `int(numWGX * numWGY * numWGZ)` of the old `distributeWGToGPUs`: the product wraps in `uint32` -/
+def Geo.total32Old (g : Geo) : Nat :=
+  (nwg32Old g.gx g.wx * nwg32Old g.gy g.wy % 4294967296) * nwg32Old g.gz g.wz % 4294967296
+
+/-- `(totalWGCount-1)/totalCUCount + 1` with Go's `int` division (toward zero): for a total that
+    wrapped to 0 this is `(-1)/n + 1` = 1 (0 when `n = 1`) -/
+def wgPerCU64Old (total sumCU : Nat) : Nat :=
+  if total = 0 then (if sumCU = 1 then 0 else 1) else (total - 1) / sumCU + 1
+
+def gpuFilter32Old (g : Geo) (dist : List Nat) (i : Nat) (c : Coord) : Bool :=
+  let nx := nwg32Old g.gx g.wx
+  let ny := nwg32Old g.gy g.wy
+  let f := c.2.2 * nx * ny + c.2.1 * nx + c.1
+  decide (dist.getD i 0 ≤ f) && decide (f < dist.getD (i + 1) 0)
+
+def dist32Old (g : Geo) (cus : List Nat) : Except String (List Nat) :=
+  if g.wx = 0 ∨ g.wy = 0 ∨ g.wz = 0 ∨ cus.sum = 0 then .error "div0" else
+  let dist := wgDist (wgPerCU64Old g.total32Old cus.sum) cus 0
+  if dist.getLast! < g.total32Old then .error "not_all_allocated" else .ok dist
 
 /-! ## line protocol -/
 
@@ -380,18 +408,18 @@ def handle (line : String) : String :=
   | "c08" :: "dist32" :: _ =>
     match geoOf t, cusOf t, (kv? t "probe").bind parse3 with
     | some g, some cus, some pr =>
-      match dist32 g cus with
+      match distI g cus with
       | .error e => "fault:" ++ e
       | .ok d =>
-        let acc := (List.range cus.length).filter fun i =>
-          decide (d.getD (i + 1) 0 - d.getD i 0 ≠ 0) && gpuFilter32 g d i pr
-        s!"d={distStr d} acc={if acc.isEmpty then "-" else distStr acc}"
+        let l := launched d cus.length
+        let acc := l.filter fun i => gpuFilterI g d i pr
+        s!"d={distStr d} acc={if acc.isEmpty then "-" else distStr acc} done={if l.isEmpty then 1 else 0}"
     | _, _, _ => "bad"
   | "c08" :: "cnt32" :: _ =>
     match geoOf t with
     | some g =>
       if g.wx = 0 ∨ g.wy = 0 ∨ g.wz = 0 then "fault:div0" else
-      let n := nwg64 g.gx g.wx * nwg64 g.gy g.wy * nwg64 g.gz g.wz
+      let n := nwgI g.gx g.wx * nwgI g.gy g.wy * nwgI g.gz g.wz
       s!"n={n} first={match nextWG g ⟨0, 0, 0⟩ with | none => "nil" | some (w, _) => wgStr w}"
     | none => "bad"
   | _ => "bad"
